@@ -1,6 +1,9 @@
 package world
 
-import "runtime/debug"
+import (
+	"runtime"
+	"runtime/debug"
+)
 
 func stackTrace() string {
 	s := string(debug.Stack())
@@ -8,4 +11,19 @@ func stackTrace() string {
 		s = s[:4000]
 	}
 	return s
+}
+
+// Gid returns the current goroutine id.
+func Gid() int64 {
+	var buf [64]byte
+	n := runtime.Stack(buf[:], false)
+	// "goroutine 123 ["
+	var id int64
+	for _, c := range buf[len("goroutine "):n] {
+		if c < '0' || c > '9' {
+			break
+		}
+		id = id*10 + int64(c-'0')
+	}
+	return id
 }
